@@ -238,7 +238,7 @@ func vC10OptProvenance(q *vC10Query, m *dns.Msg) string {
 
 type vC10Stats struct {
 	sent, good, missing, wrong int64
-	firstWrong                 atomic.Value
+	firstWrong, firstMissing   atomic.Value
 }
 
 func (s *vC10Stats) fail(format string, a ...any) {
@@ -298,10 +298,25 @@ func vC10MakeQuery(r *rand.Rand, client, idx int, kinds []string, chain bool) *v
 	kind := kinds[r.Intn(len(kinds))]
 	q := &vC10Query{id: uint16(1 + idx)}
 	uniq := uint16(0x8000 | (client&0x7F)<<8 | idx&0xFF)
+	// through the real chain a fifth of the named queries have a shape the strict wire
+	// parser declines (an additional record that is no OPT, or bytes trailing the
+	// question) and miekg's Unpack accepts: they are served on the decoded route, with a
+	// chain drawn from Pipeline.chainPool, next to the wire-born ones on job-owned chains
+	fallback := 0
+	if chain && r.Intn(5) == 0 {
+		fallback = 1 + r.Intn(2)
+	}
 	mk := func(name string) []byte {
 		m := new(dns.Msg)
 		m.SetQuestion(name, dns.TypeTXT)
 		m.Id = q.id
+		if fallback == 1 {
+			m.Extra = append(m.Extra, &dns.TXT{Hdr: dns.RR_Header{Name: "extra.c10.test.", Rrtype: dns.TypeTXT, Class: dns.ClassINET}, Txt: []string{"not an OPT"}})
+		}
+		if fallback == 2 {
+			b, _ := m.Pack()
+			return append(b, 0, 0, 0)
+		}
 		// the OPT a client sends varies from query to query: none, bare, DO, a client
 		// cookie of its own, a client subnet of its own
 		shape := r.Intn(8)
@@ -695,10 +710,11 @@ func vC10RecycleUDP(t *testing.T, s *Server, r *rand.Rand, n int) *vC10Stats {
 		if q.exp == vC10ExpSilent {
 			continue
 		}
-		_ = conns[ci].SetReadDeadline(time.Now().Add(1500 * time.Millisecond))
+		_ = conns[ci].SetReadDeadline(time.Now().Add(400 * time.Millisecond))
 		m, _, err := conns[ci].ReadFromUDPAddrPort(buf)
 		if err != nil {
 			atomic.AddInt64(&st.missing, 1)
+			st.firstMissing.CompareAndSwap(nil, fmt.Sprintf("id %d %q exp %d wire % x", q.id, q.name, q.exp, q.wire))
 			continue
 		}
 		check(ci, buf[:m])
@@ -795,6 +811,9 @@ func TestVerifC10Stress(t *testing.T) {
 	}
 	emit := func(kind string, st *vC10Stats, extra map[string]any) {
 		desc := map[string]any{"sent": st.sent, "good_replies": st.good, "no_reply_under_load": st.missing, "wrong": st.wrong}
+		if fm := st.firstMissing.Load(); fm != nil {
+			desc["first_unanswered"] = fm
+		}
 		for k, v := range extra {
 			desc[k] = v
 		}
